@@ -34,6 +34,11 @@ VARIABLES s, d,             \* the input text and delimiter string of this behav
           done
 vars == <<s, d, pos, quote, cur, toks, intok, done>>
 
+\* S: every operation specified here is a pure function of its arguments.  The library's run-time debug level is a
+\* process-wide switch (>= 1: a failed ASSERT exits the process; >= 3 and >= 5: trace statements); it is a DIMENSION of every
+\* case - each emitted case is executed at every level of DebugLevels and must yield the same result, buffers and return
+\* values, and never terminate the process - and not a parameter of any result.
+DebugLevels == <<0, 1, 3, 5>>
 SP == 32   TAB == 9   NL == 10   SQ == 39   DQ == 34   BS == 92   NUL == 0
 IsSpace(c) == c \in {32, 9, 10, 11, 12, 13}          \* C locale isspace()
 IsQuoteCh(c) == c = SQ \/ c = DQ
